@@ -109,6 +109,17 @@ func plainGen(t *rapid.T, max int) []byte {
 type nstr string
 type nbytes []byte
 
+// churn runs n unrelated encryptions/decryptions with n different secrets (per-secret state kept by the
+// library - caches of derived keys - is pushed far beyond any plausible size).
+func churn(n int) {
+	for i := 0; i < n; i++ {
+		sec := []byte{byte(i), byte(i >> 8), 'c', 'h', 'u', 'r', 'n'}
+		if e, err := cryptz.Encrypt("x", sec); err == nil {
+			cryptz.Decrypt(e, sec)
+		}
+	}
+}
+
 // disturb makes successful and failing calls with other plaintexts of other lengths: whatever an
 // earlier call returned must not change because of them (pooled or aliased buffers).
 func disturb(n int) {
@@ -224,6 +235,27 @@ func runCBC(c cbcCase, r *pb.Rec) error {
 	}
 	if dN, e := cryptz.Decrypt(nstr(enc), nbytes(c.Secret)); e != nil || !bytes.Equal(dN, c.Plain) {
 		return fmt.Errorf("Decrypt(message of a defined string type, secret of a defined []byte type) = %x, %v want %x", dN, e, c.Plain)
+	}
+	if len(c.Plain)%64 == 7 && len(c.Secret)%4 == 1 {
+		// a message that is kept while 1500 other messages with other secrets are processed still decrypts (CBC, GCM, stream)
+		gm, e1 := cryptz.GCMEncrypt(c.Plain, c.Secret, "held")
+		var sm bytes.Buffer
+		e2 := cryptz.EncryptStreamTo(&sm, bytes.NewReader(c.Plain), c.Secret)
+		if e1 != nil || e2 != nil {
+			return fmt.Errorf("GCMEncrypt/EncryptStreamTo: %v %v", e1, e2)
+		}
+		churn(1500)
+		if d, e := cryptz.Decrypt(append([]byte(nil), enc...), c.Secret); e != nil || !bytes.Equal(d, c.Plain) {
+			return fmt.Errorf("Decrypt of a message kept while 1500 other messages were processed = %x, %v want %x", d, e, c.Plain)
+		}
+		if d, e := cryptz.GCMDecrypt(gm, c.Secret, "held"); e != nil || !bytes.Equal(d, c.Plain) {
+			return fmt.Errorf("GCMDecrypt of a message kept while 1500 other messages were processed = %x, %v want %x", d, e, c.Plain)
+		}
+		var out bytes.Buffer
+		if e := cryptz.DecryptStreamTo(&out, bytes.NewReader(sm.Bytes()), c.Secret); e != nil || !bytes.Equal(out.Bytes(), c.Plain) {
+			return fmt.Errorf("DecryptStreamTo of a stream kept while 1500 other messages were processed: %v (%d bytes, equal %v)", e, out.Len(), bytes.Equal(out.Bytes(), c.Plain))
+		}
+		r.Class("message kept across 1500 other derivations")
 	}
 	// results handed out earlier are the caller's: later calls must not change them
 	disturb(len(c.Plain))
@@ -828,7 +860,7 @@ func FuzzDecrypt(f *testing.F) {
 }
 
 func init() {
-	pb.Register("cbc_roundtrip_format", pb.Options{Base: 4000, Required: []string{"block-aligned plaintext", "empty secret"},
+	pb.Register("cbc_roundtrip_format", pb.Options{Base: 4000, Required: []string{"block-aligned plaintext", "empty secret", "message kept across 1500 other derivations"},
 		Rule: "plaintext 0..200 bytes, secret 0..140 bytes (biased to the MD5 block boundaries of the derivation input) (string and []byte forms), drawn salt; oracles: independent EVP_BytesToKey(MD5,1)+AES-256-CBC+PKCS#7 decoder recovers p from the library's output, exact ciphertext equality under the library's salt, Decrypt(Encrypt(p))=p, library decrypts an independently built message; non-trivial = non-empty plaintext"},
 		genCBC, runCBC)
 	pb.Register("cbc_garbage", pb.Options{Base: 8000, Required: []string{"garbage passes the header check", "truncated message", "accepted by both"},
